@@ -23,14 +23,14 @@ Definition mworld_query (f : nat) : Prop :=
   forall stk c fr n s o fr' m' s', mquery f stk c fr n s = Ok (o, fr', m', s') -> Wd s s'.
 Definition mworld_execute (f : nat) : Prop :=
   forall stk c n rc fr0 s m' s', mexecute f stk c n rc fr0 s = Ok (m', s') ->
-    ~ In n stk -> ~ sverified s n -> Wd s s'.
+    Wd s s'.
 Definition mworld_eval (f : nat) : Prop :=
   forall stk me e fr s o fr' m' s', meval f stk me e fr s = Ok (o, fr', m', s') -> Wd s s'.
 Definition mworld_repair (f : nat) : Prop :=
   forall stk c n s m' s', mrepair f stk c n s = Ok (m', s') ->
-    ~ In n stk -> ~ sverified s n -> Wd s s'.
+    Wd s s'.
 Definition mworld_backward (f : nat) : Prop :=
-  forall stk n s s', mbackward f stk n s = Ok s' -> ~ In n stk -> sverified s n -> Wd s s'.
+  forall stk n s s', mbackward f stk n s = Ok s' -> Wd s s'.
 
 Lemma mworld_tfc : forall f stk, mworld_query f ->
   forall ts s s', mtfc p f stk ts s = Ok s' -> Wd s s'.
@@ -101,20 +101,19 @@ Proof.
         { intro Ep0. destruct (get_info s1 n) as [i|] eqn:Ei.
           + destruct (i_verified i =? s_ts s1)%N eqn:Ev.
             * inversion Ep0. subst. apply Wd_refl.
-            * eapply IHr; eauto. intros [j [Hj1 Hj2]]. rewrite Ei in Hj1. inversion Hj1. subst j.
-              apply N.eqb_neq in Ev. contradiction.
-          + eapply IHx; eauto. intros [j [Hj1 _]]. congruence. }
+            * eapply IHr; eauto.
+          + eapply IHx; eauto. }
         destruct sp; [apply Hgen; exact Ep|apply Hgen; exact Ep|].
         unfold mq_process in Ep. destruct (get_info s1 n) as [i|] eqn:Ei; [|inversion Ep; subst; apply Wd_refl].
         match type of Ep with (if ?b then _ else _) = _ => destruct b end; [|inversion Ep; subst; apply Wd_refl].
         destruct (mbackward f stk n s1) as [sb| | |] eqn:Eb; try discriminate. inversion Ep. subst.
-        eapply IHb; eauto. eapply sverified_mono; eauto. }
+        eapply IHb; eauto. }
       destruct (fast_path s2 c' fr1 n) as [[v|sp'] fr2'] eqn:Ef2.
       - inversion H. subst. eapply Wd_trans; eauto.
       - destruct (mquery f stk c' fr1 n s2) as [[[[o3 fr3] m3] s3]| | |] eqn:Eq; try discriminate.
         inversion H. subst. apply IHq in Eq. eapply Wd_trans; [|exact Eq]. eapply Wd_trans; eauto. }
     assert (Hx : mworld_execute (S f)).
-    { red. intros stk c n rc fr0 s m' s' H Hn Hnv. rewrite execute_S in H. cbv zeta in H.
+    { red. intros stk c n rc fr0 s m' s' H. rewrite execute_S in H. cbv zeta in H.
       match type of H with context [match ?X with Ok _ => _ | OutOfFuel => OutOfFuel | Panic c => Panic c | Stuck => Stuck end] =>
         destruct X as [[[[out fr1] marks] s1]| | |] eqn:Ee; try discriminate end.
       assert (M1 : Wd (set_log s (n :: s_log s)) s1).
@@ -123,12 +122,12 @@ Proof.
         inversion Ee. subst. apply Wd_refl. }
       match type of H with context [if ?b then ?X else ?Y] =>
         destruct (if b then X else Y) as [s2| | |] eqn:Epr; try discriminate end.
-      inversion H. subst.
-      assert (K : s_nodes s2 = s_nodes s1 /\ s_ts s2 = s_ts s1 /\ s_log s2 = s_log s1).
+      inversion H. subst. unfold Wd. rewrite set_computed_world.
+      assert (K : s_world s2 = s_world s1).
       { repeat match type of Epr with (if ?b then _ else _) = _ => destruct b end;
-          try (apply propagate_same in Epr; tauto); try (apply propagate_t_same in Epr; tauto).
+          try (apply propagate_we in Epr; tauto); try (apply propagate_t_we in Epr; tauto).
         inversion Epr. auto. }
-      destruct K as (K1 & K2 & K3). eapply MonoR_exec; eauto. }
+      rewrite K. exact M1. }
     assert (He : mworld_eval (S f)).
     { assert (Hbin : forall stk me a b op fr s o fr' m' s',
                 mbin p f stk me a b op fr s = Ok (o, fr', m', s') -> Wd s s').
@@ -169,28 +168,22 @@ Proof.
       + destruct (mgroup p f stk me ns 0 (fr_set_unordered fr true) [] s) as [[[[x fr1] m1] s1]| | |] eqn:E1; try discriminate.
         inversion H. subst. eapply Hgrp; eauto. }
     assert (Hr : mworld_repair (S f)).
-    { red. intros stk c n s m' s' H Hn Hnv. rewrite repair_S in H.
+    { red. intros stk c n s m' s' H. rewrite repair_S in H.
       destruct (get_info s n) as [i|] eqn:Eg; [|discriminate]. cbv zeta in H.
       destruct (mwalk p f n stk (x_pedantic c) i (all_callees (i_fwd i)) false [] empty_frame [] s)
         as [[[[d fr1] marks] s1]| | |] eqn:Ew; try discriminate.
       apply (mworld_walk _ _ _ _ _ IHq) in Ew.
-      pose proof (mr_stk _ _ _ Ew n (or_introl eq_refl)) as K1.
-      assert (Hnv1 : ~ sverified s1 n).
-      { intros [j [J1 J2]]. apply Hnv. exists j. rewrite <- K1. split; [exact J1|].
-        rewrite <- (mr_ts _ _ _ Ew). exact J2. }
-      apply MonoR_weaken in Ew. destruct d as [|[|] cl].
+      destruct d as [|[|] cl].
       - match type of H with context [execute p None f ?a ?b ?c ?d ?e ?g] =>
           destruct (execute p None f a b c d e g) as [[m2 s2]| | |] eqn:Ex; try discriminate end.
         inversion H. subst. eapply Wd_trans; [exact Ew|]. eapply IHx; eauto.
-      - inversion H. subst. eapply Wd_trans; [exact Ew|]. eapply MonoR_clean; eauto.
-        rewrite K1. exact Eg.
-      - inversion H. subst. eapply Wd_trans; [exact Ew|]. eapply MonoR_clean; eauto.
-        rewrite K1. exact Eg. }
+      - inversion H. subst. eapply Wd_trans; [exact Ew|]. unfold Wd. apply clean_query_world.
+      - inversion H. subst. eapply Wd_trans; [exact Ew|]. unfold Wd. apply clean_query_world. }
     assert (Hb : mworld_backward (S f)).
-    { red. intros stk n s s' H Hn Hv. rewrite backward_S in H. cbv zeta in H.
+    { red. intros stk n s s' H. rewrite backward_S in H. cbv zeta in H.
       destruct (mbp p f stk (proj_callers s n) s) as [s1| | |] eqn:Eb; try discriminate.
       inversion H. subst. pose proof (mworld_bp _ _ IHq _ _ _ Eb) as M1.
-      eapply Wd_trans; [exact M1|]. apply MonoR_clear_pending; [exact Hn|]. eapply sverified_mono; eauto. }
+      eapply Wd_trans; [exact M1|]. unfold Wd, clear_pending. destruct (get_info s1 n); reflexivity. }
     auto.
 Qed.
 End World.
